@@ -63,9 +63,9 @@ def builtin (inp : Array Nat) (n : Nat) (at_ : Atom) (p : Nat) : Res :=
   else if n = ASCII_ALPHANUMERIC then ((cls 48 57 <|> cls 97 122) <|> cls 65 90)
   else none
 
-def isBuiltin (n : Nat) : Prop := 1000 ≤ n ∧ n ≤ 1009
+def isBuiltinRule (n : Nat) : Prop := 1000 ≤ n ∧ n ≤ 1009
 
-instance (n : Nat) : Decidable (isBuiltin n) := by unfold isBuiltin; infer_instance
+instance (n : Nat) : Decidable (isBuiltinRule n) := by unfold isBuiltinRule; infer_instance
 
 /-- atomicity in which the body of rule `n` runs when called in `at_` -/
 def bodyAt (env : Env) (n : Nat) (ty : RT) (at_ : Atom) : Atom :=
@@ -87,7 +87,7 @@ def emits (env : Env) (n : Nat) (ty : RT) (at_ : Atom) : Bool :=
   | .compound => if w then at_ != .atomic else true
   | .nonAtomic => if w then at_ != .atomic else true
 
-theorem callRule_builtin (env : Env) (f n : Nat) (at_ : Atom) (p : Nat) (h : isBuiltin n) :
+theorem callRule_builtin (env : Env) (f n : Nat) (at_ : Atom) (p : Nat) (h : isBuiltinRule n) :
     callRule env (f + 1) n at_ false p = builtin env.inp n at_ p := by
   obtain ⟨h1, h2⟩ := h
   have : n = 1000 ∨ n = 1001 ∨ n = 1002 ∨ n = 1003 ∨ n = 1004 ∨ n = 1005 ∨ n = 1006 ∨ n = 1007 ∨ n = 1008 ∨ n = 1009 := by omega
@@ -96,7 +96,7 @@ theorem callRule_builtin (env : Env) (f n : Nat) (at_ : Atom) (p : Nat) (h : isB
       ASCII_ALPHA, ASCII_ALPHANUMERIC]
   all_goals (split <;> simp_all)
 
-theorem callRule_rule (env : Env) (f n : Nat) (at_ : Atom) (p : Nat) (h : ¬ isBuiltin n) :
+theorem callRule_rule (env : Env) (f n : Nat) (at_ : Atom) (p : Nat) (h : ¬ isBuiltinRule n) :
     callRule env (f + 1) n at_ false p =
       match env.g[n]? with
       | none => none
@@ -127,12 +127,12 @@ theorem callRule_rule (env : Env) (f n : Nat) (at_ : Atom) (p : Nat) (h : ¬ isB
 
 /-- the rule-level specification is closed under the built-in rules and the rule bodies -/
 structure Closed (env : Env) (spec : Spec) : Prop where
-  builtin : ∀ n at_ p p' ks, isBuiltin n → builtin env.inp n at_ p = some (p', ks) → spec n at_ p p' ks
-  rule : ∀ n r, ¬ isBuiltin n → env.g[n]? = some r → ∀ at_ p p' ks,
+  builtin : ∀ n at_ p p' ks, isBuiltinRule n → builtin env.inp n at_ p = some (p', ks) → spec n at_ p p' ks
+  rule : ∀ n r, ¬ isBuiltinRule n → env.g[n]? = some r → ∀ at_ p p' ks,
     Sem env.inp spec (bodyAt env n r.ty at_) r.body p p' ks →
     spec n at_ p p' (if emits env n r.ty at_ then [Pair.mk n p p' ks] else ks)
 
-theorem sound (env : Env) (spec : Spec) (hc : Closed env spec) (f : Nat) :
+theorem shape_sound (env : Env) (spec : Spec) (hc : Closed env spec) (f : Nat) :
     (∀ e at_ p p' ks, matchE env f e at_ false p = some (p', ks) → Sem env.inp spec at_ e p p' ks) ∧
     (∀ a at_ p acc p' acc', rep env f a at_ false p acc = (p', acc') →
       ∃ ks, Reps (Sem env.inp spec at_ a) at_ p p' ks ∧ acc'.reverse.flatten = acc.reverse.flatten ++ ks) ∧
@@ -254,7 +254,7 @@ theorem sound (env : Env) (spec : Spec) (hc : Closed env spec) (f : Nat) :
           refine ⟨k2 ++ ks, Reps.cons (skip_ok env f at_ p) (ihM _ _ _ _ _ h2) hreps, ?_⟩
           rw [hacc]; simp
     · intro n at_ p p' ks h
-      by_cases hb : isBuiltin n
+      by_cases hb : isBuiltinRule n
       · rw [callRule_builtin env f n at_ p hb] at h
         exact hc.builtin _ _ _ _ _ hb h
       · rw [callRule_rule env f n at_ p hb] at h
